@@ -191,6 +191,15 @@ def run(res, tier):
             x, y = ("var", names[0]), ("var", names[-1]) if rng.random() < 0.6 else gen_expr(rng, 1, names)
             o1, o2, o3 = rng.sample(["<", ">", "==", "!=", "<=", ">="], 3)
             e = ("pre", ("bin", o1, x, y), ("bin", o2, x, y), ("bin", o3, y, x), ("lit", 1), ("lit", 2), gen_expr(rng, 1, names))
+        if i % 11 == 5:
+            # a literal of the value 0 / 1 next to a run-time operand under every operator, at the root and under a comparison: the
+            # result is a run-time value of the operand's class whatever the literal's value
+            v = ("var", rng.choice(names))
+            lit = ("lit", rng.choice([0, 0, 1]))
+            pair = (v, lit) if rng.random() < 0.5 else (lit, v)
+            e = ("bin", rng.choice(["*", "*", "+", "-"]), pair[0], pair[1])
+            if rng.random() < 0.5:
+                e = ("bin", rng.choice(["<", "==", ">="]), e, ("var", names[-1]))
         if i % 7 == 3:
             # a value compared with / combined with *itself* (the same Python object on both sides, as on the diagonal of an
             # all-pairs loop), at the root or under an if_else
